@@ -27,7 +27,8 @@ META = {
         'cached value depends on, so one failed lookup is not replayed for '
         'unrelated references; (carry) in the completion work-list no error '
         'placeholder is registered under a condition on a container that the '
-        'loop fills while processing other nodes.'),
+        'loop fills while processing other nodes.'
+        ' (link) where the file of an external reference is set, no path condition tests whether the link table lists the index: an unknown index names a workbook of its own.'),
     'not_decided': 'Values of unrelated cells (locality beyond these '
                    'structural conditions).',
     'trusted_base': ['CPython ast', 'schedula: a dispatcher built with a '
@@ -448,6 +449,89 @@ def _cachekey(ctx):
                          ['formulas/excel/__init__.py'])
 
 
+def rule_link(ctx):
+    rr = RuleResult('C14', 'C14.link', 'DEF',
+                    'a workbook index that the table of external links does '
+                    'not know still names a workbook of its own', floor=1)
+    from ..util import with_helpers, path_conditions
+    p = ctx.project
+    OPERAND = 'formulas/tokens/operand.py'
+    f0 = p.func(OPERAND, 'range2parts')
+    stores = []
+    for g in with_helpers(ctx, f0):
+        for n in own_nodes(g):
+            if isinstance(n, ast.Assign) and any(
+                    isinstance(x, ast.Subscript) and isinstance(
+                        x.slice, ast.Constant) and x.slice.value == 'filename'
+                    and isinstance(x.ctx, ast.Store)
+                    for t_ in n.targets for x in ast.walk(t_)):
+                stores.append((g, n))
+    if not stores:
+        raise AnalysisError('range2parts: where the file of an external '
+                            'reference is set was not found')
+
+    def link_names(g):
+        names = set()
+        for n in own_nodes(g):
+            if isinstance(n, ast.Assign) and len(n.targets) == 1 and \
+                    isinstance(n.targets[0], ast.Name) and \
+                    "'external_links'" in norm_src(n.value):
+                names.add(n.targets[0].id)
+        return names
+
+    for g, st in stores:
+        rr.instances += 1
+        links = link_names(g)
+
+        def is_links(e):
+            return "'external_links'" in norm_src(e) or (
+                isinstance(e, ast.Name) and e.id in links)
+
+        bad = [t_ for t_, pol in path_conditions(g, st)
+               if isinstance(t_, ast.Compare) and len(t_.ops) == 1 and
+               isinstance(t_.ops[0], (ast.In, ast.NotIn)) and is_links(
+                   t_.comparators[0])]
+        bad += [t_ for t_, pol in path_conditions(g, st)
+                if isinstance(t_, ast.Call) and isinstance(
+                    t_.func, ast.Attribute) and t_.func.attr == 'get' and
+                is_links(t_.func.value) and len(t_.args) == 1]
+        # ... or a test of what a default-less lookup in the table gave
+        looked = {n.targets[0].id for n in own_nodes(g) if isinstance(
+            n, ast.Assign) and len(n.targets) == 1 and isinstance(
+            n.targets[0], ast.Name) and isinstance(n.value, ast.Call) and
+            isinstance(n.value.func, ast.Attribute) and
+            n.value.func.attr == 'get' and is_links(n.value.func.value) and
+            len(n.value.args) == 1 and not n.value.keywords}
+        for t_, pol in path_conditions(g, st):
+            names = {x.id for x in ast.walk(t_) if isinstance(x, ast.Name)}
+            if names & looked and (isinstance(t_, ast.Name) or isinstance(
+                    t_, ast.Compare)):
+                bad.append(t_)
+        v = st.value
+        if bad:
+            rr.fail(key_of(g, 'unknown link index keeps the host workbook'),
+                    '%s sets the file of an external reference only when `%s`:'
+                    ' an index that the link table does not list keeps the '
+                    'directory and file of the workbook that holds the formula, '
+                    'so a reference into a missing workbook is read from the '
+                    'host workbook instead of evaluating to #REF!' % (
+                        g.qualname, norm_src(bad[0])), file=g.module.rel,
+                    function=g.qualname, line=st.lineno)
+        elif isinstance(v, ast.Call) and isinstance(
+                v.func, ast.Attribute) and v.func.attr == 'get' and len(
+                v.args) == 2 and is_links(v.func.value) and isinstance(
+                v.args[1], ast.Tuple) and any(
+                norm_src(e) == norm_src(v.args[0]) for e in v.args[1].elts):
+            rr.ok('%s: an index without a link becomes a workbook named after '
+                  'the index (`%s`)' % (g.qualname, norm_src(v.args[1])),
+                  '%s:%d' % (g.module.rel, st.lineno))
+        else:
+            rr.ok('%s: the file of an external reference is set whether or '
+                  'not the link table lists the index' % g.qualname,
+                  '%s:%d' % (g.module.rel, st.lineno))
+    return rr
+
+
 def run(ctx):
     S = ctx.soft
     t = S(rule_table, ctx)
@@ -457,4 +541,5 @@ def run(ctx):
     for o in t.obligations:
         o.rule = 'C14.table'
     return [S(rule_name, ctx), t, S(rule_lookup, ctx), S(rule_ref, ctx),
-            S(rule_plain, ctx), S(rule_local, ctx), S(_cachekey, ctx), S(rule_carry, ctx)]
+            S(rule_plain, ctx), S(rule_local, ctx), S(_cachekey, ctx), S(rule_carry, ctx),
+            S(rule_link, ctx)]
